@@ -381,6 +381,47 @@ reg("tensor.contract", "tensor_contract",
     _g_contract)
 
 
+def rearrangements(sizes, fixed=(), limit=12, rng=None):
+    """size tuples with the SAME product on each side of the fixed positions but different entries: permutations of the
+    free positions and re-factorisations (one entry multiplied by k, another divided by k) — the ill-formed requests a
+    product-of-sizes test cannot see. `fixed` positions are left alone."""
+    sizes = list(sizes)
+    free = [i for i in range(len(sizes)) if i not in fixed]
+    out = []
+    for p in itertools.permutations(free):
+        v = sizes[:]
+        for i, j in zip(free, p):
+            v[i] = sizes[j]
+        if v != sizes and v not in out:
+            out.append(v)
+    for i in free:
+        for j in free:
+            if i == j:
+                continue
+            for k in (2, 3, 4):
+                if sizes[j] % k == 0:
+                    v = sizes[:]
+                    v[i], v[j] = sizes[i] * k, sizes[j] // k
+                    if v != sizes and v not in out:
+                        out.append(v)
+    if rng is not None and len(out) > limit:
+        out = rng.sample(out, limit)
+    return out
+
+
+def bad_orders(N):
+    """mode-order lists that are not permutations of range(N): (tag, list). Includes the over-long lists with repeats that
+    still mention every mode (invisible to a set comparison) and the right-length lists with a repeat."""
+    r = list(range(N))
+    out = [("order_short", r[:-1]), ("order_long_rep", r + [N - 1]), ("order_long_rep", [r[0]] + r),
+           ("order_long_rep", r[::-1] + r), ("order_long_oob", r + [N]), ("order_oob", r[:-1] + [N]),
+           ("order_neg", [-1] + r[1:]), ("order_neg", r[:-1] + [-1]), ("order_empty", [])]
+    if N >= 2:
+        out += [("order_rep", [0] * N), ("order_rep", r[:-1] + [r[0]]), ("order_long_rep", [1, 1, 0] + r[2:]),
+                ("order_shift", list(range(1, N + 1)))]
+    return out
+
+
 def mode_sel_cases(s, rng, tier, mult_for, bad_mult_for, allow_empty=False):
     """(dims, excl, mults, tag): well-formed selections (both conventions, both multiplicand-count conventions) and
     one violation each: mode list (neg/oob/rep), count (one short / one long), multiplicand size."""
@@ -430,6 +471,13 @@ def _g_ttv(rng, tier):
             return [s[m] + 1, 1] if s[m] != 1 else [2]
         for d, e, mm, tag in mode_sel_cases(s, rng, tier, mult_for, bad):
             out.append(({"s": list(s), "vlens": mm, "dims": d, "excl": e}, tag))
+        # one vector per mode, lengths rearranged / re-factored (same total size)
+        for v in rearrangements(s, rng=rng, limit=6 if tier != "thorough" else 40):
+            a = {"s": list(s), "vlens": v, "dims": None, "excl": None}
+            out.append((a, "mult_rearranged"))
+            if len(s) >= 3:
+                out.append(({"s": list(s), "vlens": v[1:], "dims": None, "excl": [0]},
+                            "mult_rearranged" if v[1:] != list(s[1:]) else "control"))
     return out
 
 
@@ -469,6 +517,9 @@ def _g_ttm(rng, tier):
                 return res
             for d, e, mm, tag in mode_sel_cases(s, rng, tier, mult_for, bad):
                 out.append(({"s": list(s), "ms": [list(x) for x in mm], "dims": d, "excl": e, "tr": tr}, tag))
+            for v in rearrangements(s, rng=rng, limit=4 if tier != "thorough" else 30):
+                mm = [((x, 2) if tr else (2, x)) for x in v]
+                out.append(({"s": list(s), "ms": [list(x) for x in mm], "dims": None, "excl": None, "tr": tr}, "mult_rearranged"))
     if tier != "thorough":
         out = [x for i, x in enumerate(out) if x[1] != "control" or i % 2 == 0]
     return out
@@ -507,17 +558,16 @@ def perm_op(name, mk, f, guard="sorted_perm"):
 
 
 def _no_singleton_selected(a):
-    """ktensor.ttv squeezes its vectors, so a length-1 multiplicand is (wrongly) refused even in a well-formed request:
-    a false rejection outside C19 (reported under C02); such requests are not generated for ktensor/sumtensor.ttv"""
+    """(no longer used: ktensor.ttv refused length-1 multiplicands before fix 66edb11; singleton modes are generated now)"""
     N = len(a["s"])
     sel = sel_modes(N, a["dims"], a["excl"])
     return all(not (0 <= m < N) or a["s"][m] != 1 for m in sel) and all(v != 1 for v in a["vlens"])
 
 
 def ttv_op(name, mk, pool_min=1, keep=lambda a: True):
-    reg(name, "ttv", lambda a: f"{zl(a['s'])} {zl(a['vlens'])} {zo(a['dims'])} {zo(a['excl'])}", _pre_ttv,
+    reg(name, ("ttv", "ttv_checks"), lambda a: f"{zl(a['s'])} {zl(a['vlens'])} {zo(a['dims'])} {zo(a['excl'])}", _pre_ttv,
         lambda a: (lambda x, vs: ([x, vs], lambda: x.ttv(vs, *_dims(a))))(mk(a["s"]), [arr((n,), 2) for n in a["vlens"]]),
-        lambda rng, tier: [(a, t) for a, t in _g_ttv(rng, tier) if len(a["s"]) >= pool_min and keep(a)], guard=False)
+        lambda rng, tier: [(a, t) for a, t in _g_ttv(rng, tier) if len(a["s"]) >= pool_min and keep(a)])
 
 
 def ttm_op(name, mk, pool_min=1):
@@ -551,6 +601,17 @@ def _g_mttkrp(rng, tier, minN=2):
             out.append(({"s": list(s), "us": good, "n": -1}, "neg_mode"))
             out.append(({"s": list(s), "us": good, "n": -N}, "neg_mode"))
             out.append(({"s": list(s), "us": good, "n": N}, "oob_mode"))
+        # row counts rearranged / re-factored among the matrices that are used (U[n] is never looked at): the products on
+        # each side of n (and over all modes) are unchanged
+        for n in range(N):
+            if N < 3:
+                break
+            vs = rearrangements(s, fixed=(n,), rng=rng, limit=6 if tier != "thorough" else 40)
+            if tier == "thorough":
+                vs += [v for v in rearrangements(s, rng=rng, limit=20) if v not in vs]
+            for v in vs:
+                a = {"s": list(s), "us": [[r, R] for r in v], "n": n}
+                out.append((a, "rows_rearranged" if any(v[i] != s[i] for i in range(N) if i != n) else "control"))
     return out
 
 
@@ -562,14 +623,14 @@ def _pre_mttkrp(a):
     return all(i == n or (us[i][0] == s[i] and us[i][1] == R) for i in range(N))
 
 
-def mttkrp_op(name, mk):
-    reg(name, "mttkrp", lambda a: f"{zl(a['s'])} {pl(a['us'])} {gz(a['n'])}", _pre_mttkrp,
+def mttkrp_op(name, mk, guard=None):
+    reg(name, "mttkrp" if guard is None else ("mttkrp", guard), lambda a: f"{zl(a['s'])} {pl(a['us'])} {gz(a['n'])}", _pre_mttkrp,
         lambda a: (lambda x, us: ([x, us], lambda: x.mttkrp(us, a["n"])))(mk(a["s"]), [arr(u, 2) for u in a["us"]]),
-        _g_mttkrp, guard=False)
+        _g_mttkrp, guard=guard is not None)
 
 
 # ---------------------------------------------------------------- tensor (continued)
-mttkrp_op("tensor.mttkrp", T)
+mttkrp_op("tensor.mttkrp", T, guard="tensor_mttkrp")
 
 
 def _g_modes(rng, tier):
@@ -583,10 +644,10 @@ def _g_modes(rng, tier):
     return out
 
 
-reg("tensor.collapse", "collapse", lambda a: f"{zl(a['s'])} {zl(a['d'])}", lambda a: modes_ok(len(a["s"]), a["d"]),
-    lambda a: (lambda x: ([x], lambda: x.collapse(_np().array(a["d"], dtype=int))))(T(a["s"])), _g_modes, guard=False)
-reg("sptensor.collapse", "collapse", lambda a: f"{zl(a['s'])} {zl(a['d'])}", lambda a: modes_ok(len(a["s"]), a["d"]),
-    lambda a: (lambda x: ([x], lambda: x.collapse(_np().array(a["d"], dtype=int))))(S(a["s"])), _g_modes, guard=False)
+reg("tensor.collapse", ("collapse", "tensor_collapse"), lambda a: f"{zl(a['s'])} {zl(a['d'])}", lambda a: modes_ok(len(a["s"]), a["d"]),
+    lambda a: (lambda x: ([x], lambda: x.collapse(_np().array(a["d"], dtype=int))))(T(a["s"])), _g_modes)
+reg("sptensor.collapse", ("collapse", "sptensor_collapse"), lambda a: f"{zl(a['s'])} {zl(a['d'])}", lambda a: modes_ok(len(a["s"]), a["d"]),
+    lambda a: (lambda x: ([x], lambda: x.collapse(_np().array(a["d"], dtype=int))))(S(a["s"])), _g_modes)
 
 
 def _g_scale(rng, tier):
@@ -702,6 +763,8 @@ def _g_sp_ctor(rng, tier):
         out.append(({"s": list(s), "subs": [zero + [0], top + [0]], "nvals": 2}, "extra_col"))
         if N > 1:
             out.append(({"s": list(s), "subs": [zero[:-1], top[:-1]], "nvals": 2}, "missing_col"))
+        for k in range(N):
+            out.append(({"s": list(s), "subs": [zero[:k] + [-1] + zero[k + 1:], top], "nvals": 2}, "neg_sub"))
         out.append(({"s": list(s), "subs": good, "nvals": len(good) + 1}, "vals_count"))
         if len(good) == 2:
             out.append(({"s": list(s), "subs": good, "nvals": 1}, "vals_count"))
@@ -721,7 +784,7 @@ def _mk_subs(a):
 
 
 reg("sptensor.ctor", "sptensor_ctor", lambda a: f"{zl(a['s'])} {zll(a['subs'])} {gz(a['nvals'])}", _pre_sp_ctor,
-    lambda a: (lambda sv: ([sv[0], sv[1]], lambda: _ttb().sptensor(sv[0], sv[1], tuple(a["s"]))))(_mk_subs(a)), _g_sp_ctor, guard=False)
+    lambda a: (lambda sv: ([sv[0], sv[1]], lambda: _ttb().sptensor(sv[0], sv[1], tuple(a["s"]))))(_mk_subs(a)), _g_sp_ctor)
 reg("sptensor.from_aggregator", "sptensor_ctor", lambda a: f"{zl(a['s'])} {zll(a['subs'])} {gz(a['nvals'])}", _pre_sp_ctor,
     lambda a: (lambda sv: ([sv[0], sv[1]], lambda: _ttb().sptensor.from_aggregator(sv[0], sv[1], tuple(a["s"]))))(_mk_subs(a)),
     _g_sp_ctor, guard=False)
@@ -848,9 +911,9 @@ def _g_mode(rng, tier):
 
 
 reg("ktensor.redistribute", "mode", lambda a: f"{zl(a['s'])} {gz(a['n'])}", lambda a: in_range(len(a["s"]), a["n"]),
-    lambda a: (lambda x: ([x], lambda: x.redistribute(a["n"])))(K(a["s"])), _g_mode, mutating=True, guard=False)
+    lambda a: (lambda x: ([x], lambda: x.redistribute(a["n"])))(K(a["s"])), _g_mode, mutating=True)
 reg("ktensor.normalize_mode", "mode", lambda a: f"{zl(a['s'])} {gz(a['n'])}", lambda a: in_range(len(a["s"]), a["n"]),
-    lambda a: (lambda x: ([x], lambda: x.normalize(mode=a["n"])))(K(a["s"])), _g_mode, mutating=True, guard=False)
+    lambda a: (lambda x: ([x], lambda: x.normalize(mode=a["n"])))(K(a["s"])), _g_mode, mutating=True)
 reg("tensor.nvecs", "mode", lambda a: f"{zl(a['s'])} {gz(a['n'])}", lambda a: in_range(len(a["s"]), a["n"]),
     lambda a: (lambda x: ([x], lambda: x.nvecs(a["n"], 1)))(T(a["s"])),
     lambda rng, tier: [(a, t) for a, t in _g_mode(rng, tier) if len(a["s"]) >= 2 and a["s"][0] > 1], guard=False)
@@ -858,7 +921,7 @@ two_shapes("ktensor.innerprod", K, K, lambda x, y: x.innerprod(y))
 two_shapes("ktensor.innerprod_dense", K, T, lambda x, y: x.innerprod(y))
 two_shapes("ktensor.add", K, K, lambda x, y: x + y)
 perm_op("ktensor.permute", K, lambda x, o: x.permute(o))
-ttv_op("ktensor.ttv", K, keep=_no_singleton_selected)
+ttv_op("ktensor.ttv", K)
 mttkrp_op("ktensor.mttkrp", K)
 
 # ---------------------------------------------------------------- ttensor
@@ -894,7 +957,7 @@ two_shapes("ttensor.innerprod_dense", TTs, T, lambda x, y: x.innerprod(y))
 perm_op("ttensor.permute", TTs, lambda x, o: x.permute(o))
 ttv_op("ttensor.ttv", TTs)
 ttm_op("ttensor.ttm", TTs)
-mttkrp_op("ttensor.mttkrp", TTs)
+mttkrp_op("ttensor.mttkrp", TTs, guard="ttensor_mttkrp")
 
 # ---------------------------------------------------------------- tenmat / sptenmat
 
@@ -1011,7 +1074,7 @@ def SU(s):
 
 two_shapes("sumtensor.add", SU, T, lambda x, y: x + y)
 two_shapes("sumtensor.innerprod", SU, T, lambda x, y: x.innerprod(y))
-ttv_op("sumtensor.ttv", SU, keep=_no_singleton_selected)
+ttv_op("sumtensor.ttv", SU)
 mttkrp_op("sumtensor.mttkrp", SU)
 
 
@@ -1092,6 +1155,9 @@ def _g_cp(rng, tier, nvecs=True):
         out.append((dict(base, dimorder=[0] * N), "dimorder"))
         out.append((dict(base, dimorder=list(range(1, N + 1))), "dimorder"))
         out.append((dict(base, dimorder=[-1] + list(range(N - 1))), "dimorder"))
+        for tag, o in bad_orders(N):
+            out.append((dict(base, dimorder=o), tag))
+            out.append((dict(base, dimorder=o, init="random"), tag))
     return out
 
 
@@ -1107,7 +1173,26 @@ reg("cp_als", "cp_als", lambda a: f"{zl(a['s'])} {gz(a['rank'])} {ginit(a['init'
     and (a["dimorder"] is None or is_perm(len(a["s"]), a["dimorder"])),
     lambda a: (lambda x, i: ([x], lambda: _quiet(lambda: _ttb().cp_als(x, a["rank"], init=i, dimorder=a["dimorder"], maxiters=2,
                                                                            printitn=0))))(T(a["s"]), mk_init(a["init"])),
-    _g_cp, guard=False)
+    _g_cp)
+
+
+def _g_optdims(rng, tier):
+    out = []
+    for s in [(2, 3, 4), (3, 2)]:
+        N = len(s)
+        for d in subsets(N, rng, tier):
+            out.append(({"s": list(s), "optdims": d}, "control"))
+        for tag, d in bad_mode_lists(N):
+            out.append(({"s": list(s), "optdims": d}, tag))
+        out.append(({"s": list(s), "optdims": list(range(N)) + [N - 1]}, "rep_mode"))
+        out.append(({"s": list(s), "optdims": list(range(N)) + [N]}, "oob_mode"))
+    return out
+
+
+# cp_als(optdims=...): the list of modes to optimise is a mode argument (distinct modes of the tensor)
+reg("cp_als.optdims", "modes", lambda a: f"{zl(a['s'])} {zl(a['optdims'])}", lambda a: modes_ok(len(a["s"]), a["optdims"]),
+    lambda a: (lambda x: ([x], lambda: _quiet(lambda: _ttb().cp_als(x, 2, optdims=list(a["optdims"]), maxiters=1, printitn=0))))(T(a["s"])),
+    _g_optdims, guard=False)
 
 
 def _g_cp_apr(rng, tier):
@@ -1127,7 +1212,7 @@ reg("cp_apr", "cp_apr", lambda a: f"{zl(a['s'])} {gz(a['rank'])} {ginit(a['init'
     lambda a: (lambda x, i: ([x], lambda: _quiet(lambda: _ttb().cp_apr(x, a["rank"], algorithm=a["alg"], init=i, maxiters=1,
                                                                            maxinneriters=1, printitn=0, printinneritn=0))))(
         T(a["s"]), mk_init(a["init"])),
-    _g_cp_apr, guard=False)
+    _g_cp_apr)
 
 
 def _g_hosvd(rng, tier):
@@ -1145,6 +1230,9 @@ def _g_hosvd(rng, tier):
         out.append((dict(base, dimorder=list(range(N - 1))), "dimorder"))
         out.append((dict(base, dimorder=[0] * N), "dimorder"))
         out.append((dict(base, dimorder=list(range(1, N + 1))), "dimorder"))
+        for tag, o in bad_orders(N):
+            out.append((dict(base, dimorder=o), tag))
+            out.append((dict(base, dimorder=o, ranks=None), tag))
     return out
 
 
@@ -1156,7 +1244,7 @@ reg("hosvd", "hosvd", lambda a: f"{zl(a['s'])} {zo(a['ranks'])} {zo(a['dimorder'
     lambda a: (a["ranks"] is None or _ranks_ok(a["ranks"], a["s"])) and (a["dimorder"] is None or is_perm(len(a["s"]), a["dimorder"])),
     lambda a: (lambda x, r: ([x], lambda: _quiet(lambda: _ttb().hosvd(x, 1e-4, verbosity=0, dimorder=a["dimorder"], ranks=r))))(
         T(a["s"]), None if a["ranks"] is None else _np().array(a["ranks"], dtype=int)),
-    _g_hosvd, guard=False)
+    _g_hosvd)
 
 
 def _g_tucker(rng, tier):
@@ -1181,6 +1269,12 @@ def _g_tucker(rng, tier):
         out.append((dict(base, dimorder=list(range(N))[::-1]), "control"))
         out.append((dict(base, dimorder=list(range(N - 1))), "dimorder"))
         out.append((dict(base, dimorder=[0] * N), "dimorder"))
+        for tag, o in bad_orders(N):
+            out.append((dict(base, dimorder=o), tag))
+            if o:
+                out.append((dict(base, dimorder=o, init={"l": good}), tag))
+        out.append((dict(base, ranks=rk + [1]), "ranks_len"))
+        out.append((dict(base, ranks=rk + rk), "ranks_len"))
     return out
 
 
@@ -1205,7 +1299,7 @@ reg("tucker_als", "tucker_als",
     lambda a: (lambda x, i: ([x], lambda: _quiet(lambda: _ttb().tucker_als(x, _np().array(a["ranks"], dtype=int), init=i,
                                                                                dimorder=a["dimorder"], maxiters=a["maxiters"],
                                                                                printitn=0))))(T(a["s"]), mk_init(a["init"])),
-    _g_tucker, guard=False)
+    _g_tucker)
 
 
 def _g_gcp(rng, tier):
@@ -1279,9 +1373,20 @@ reg("import_data", "import", lambda a: f"{gbool(a['type'] in ('tensor', 'sptenso
 # known findings: trigger predicates (as narrow as the defect) and witnesses
 # ================================================================================================
 FINDINGS = []      # source of findings.d/C19.jsonl (written by `python3 tools/props/c19_ops.py --findings`)
+# repaired in /repo (fix: commits): the record is kept, but there is neither a trigger nor a witness any more —
+# if such a defect comes back the correspondence reports it
+FIXED = {"C19-N02": "b4434a4", "C19-N03": "d384651", "A-42": "f9fb7ec", "A-44": "3c0ad44", "A-45": "ce8a533",
+         "C19-N04": "d862071", "C19-N05": "2c19f39", "C19-N06": "f9fb7ec", "C19-N07": "5b41ba6", "C19-N08": "aca2504",
+         "C19-N10": "d3df9c1", "C19-N12": "922ff4e", "C19-N13": "7d1fad0"}
 
 
 def finding(fid, trigger, pred, op, witness, what, call_site, proposed="fix"):
+    if fid in FIXED:
+        FINDINGS.append({"property": "C19", "finding_id": fid, "status": "fixed", "op": None, "trigger": trigger,
+                         "call_site": call_site, "what": what, "witness": {"op": op, "args": witness},
+                         "expected": "an exception (request rejected)", "observed": "a value is returned",
+                         "proposed": proposed, "fixed_commit": FIXED[fid]})
+        return
     TRIGGERS[trigger] = lambda c, _p=pred: bool(_p(c.op, c.args))
 
     def wit(_op=op, _w=witness):
@@ -1309,13 +1414,13 @@ finding("A-28", "permute_all_ones",
         lambda op, a: op == "tensor.permute" and len(a["order"]) == len(a["s"]) >= 1 and all(x == 1 for x in a["order"]),
         "tensor.permute", {"s": [4], "order": [1]},
         "tensor.permute: the '(order == 1).all()' shortcut returns a copy for any all-ones order ([1] on a 1-way tensor, "
-        "[1,1] on a matrix) instead of rejecting the invalid permutation", "tensor.permute")
+        "[1,1] on a matrix) instead of rejecting the invalid permutation", "tensor.permute", proposed="known")
 finding("C19-N01", "permute_negative_axes",
         lambda op, a: op == "tensor.permute" and len(a["order"]) == len(a["s"]) and any(x < 0 for x in a["order"])
         and _wrapped_distinct(len(a["s"]), a["order"]),
         "tensor.permute", {"s": [2, 3], "order": [-1, 0]},
         "tensor.permute: negative modes are passed to np.transpose, which wraps them around, so order [-1,0] is answered",
-        "tensor.permute")
+        "tensor.permute", proposed="known")
 finding("C19-N02", "dense_binop_broadcast",
         lambda op, a: op in DENSE_BINOPS and a["s"] != a["u"] and _bcast(a["s"], a["u"]),
         "tensor.add", {"s": [2, 3], "u": [1, 3]},
@@ -1349,7 +1454,10 @@ PROVED = {"tensor.ctor", "tensor.reshape", "tensor.innerprod", "tensor.permute",
           "ktensor.ctor", "ktensor.arrange", "ktensor.extract", "ktensor.innerprod", "ktensor.innerprod_dense", "ktensor.add",
           "ktensor.permute", "ttensor.ctor", "ttensor.innerprod", "ttensor.innerprod_dense", "ttensor.permute",
           "tenmat.mul", "tenmat.add", "sptenmat.ctor", "sumtensor.ctor", "sumtensor.add", "sumtensor.innerprod",
-          "khatrirao", "import_data"}
+          "khatrirao", "import_data",
+          "tensor.ttv", "tensor.ttm", "tensor.mttkrp", "tensor.collapse", "sptensor.ctor", "ktensor.redistribute",
+          "cp_als", "hosvd", "cp_apr", "tucker_als", "sptensor.ttv", "ktensor.ttv", "ttensor.ttv", "sumtensor.ttv",
+          "sptensor.collapse", "ttensor.mttkrp", "ktensor.normalize_mode"}
 
 
 def tagfinding(fid, ops, tags, witness_op, witness, what, call_site, extra=lambda a: True, proposed="fix"):
@@ -1358,10 +1466,6 @@ def tagfinding(fid, ops, tags, witness_op, witness, what, call_site, extra=lambd
             lambda op, a: op in ops and a.get("tag") in tags and extra(a), witness_op, witness, what, call_site, proposed)
 
 
-REPEATED_DIMS_OPS |= {"sptensor.ttv", "sptensor.ttm", "ktensor.ttv", "ttensor.ttm", "ttensor.ttv", "sumtensor.ttv"}
-TRIGGERS["repeated_dims"] = lambda c: (c.op in REPEATED_DIMS_OPS and _rep_in_range(c.args)) or (
-    c.op in ("tensor.collapse", "sptensor.collapse") and len(set(c.args["d"])) != len(c.args["d"])
-    and all(0 <= x < len(c.args["s"]) for x in c.args["d"]))
 
 tagfinding("A-44", ["sptenmat.ctor"], ["row_eq_size", "col_eq_size"], "sptenmat.ctor",
            {"ts": [2, 2], "rd": [0], "cd": [1], "mr": 2, "mc": 1},
@@ -1410,6 +1514,17 @@ tagfinding("C19-N13", ["gcp_opt"], ["init_rank"], "gcp_opt",
            {"s": [3, 2], "rank": 2, "init": {"k": [3, 2], "R": 3}, "opt": "lbfgsb"},
            "gcp_opt: an initial ktensor whose number of components differs from the requested rank is accepted (cp_als and "
            "cp_apr reject it)", "gcp_opt._get_initial_guess")
+
+
+tagfinding("C19-N14", ["sptensor.ctor"], ["neg_sub"], "sptensor.ctor", {"s": [2, 3], "subs": [[0, -1], [1, 1]], "nvals": 2},
+           "sptensor.__init__ checks only the upper bound of the subscripts (max(subs)+1 <= shape): negative subscripts are "
+           "stored as they are (from_aggregator rejects them)", "sptensor.__init__")
+finding("C19-N15", "c19_n15_optdims",
+        lambda op, a: op == "cp_als.optdims" and not modes_ok(len(a["s"]), a["optdims"])
+        and any(in_range(len(a["s"]), x) for x in a["optdims"]),
+        "cp_als.optdims", {"s": [2, 3, 4], "optdims": [0, 5]},
+        "cp_als never validates optdims: out-of-range, negative or repeated modes are silently ignored as long as one listed "
+        "mode exists (dimorder is validated, optdims is not)", "cp_als")
 
 
 if __name__ == "__main__":
